@@ -510,12 +510,24 @@ def diff_quals(kind, got, want):
         else:
             if any(escape_ref(w) == k for w in want):
                 continue   # reported from the `want` side
-            out.append(f"parse.{kind}.qualifier-extra")
+            out.append(f"parse.{kind}.qualifier-extra" + (":" + k if k.startswith("provided_") else ""))
     return out
 
 
 def mask_guids(text):
     return UUID_RE.sub("<guid>", text)
+
+
+def _sorted_attrs(line):
+    """column 9 with the non-reserved attributes in sorted order: the writer sorts by the key BEFORE it lower-cases
+    it, so the documented case folding may move an attribute within the column on the first round"""
+    c = line.split("\t")
+    if len(c) != 9:
+        return line
+    pieces = c[8].split(";")
+    head = [x for x in pieces if x.split("=")[0] in RESERVED]
+    c[8] = ";".join(head + sorted(x for x in pieces if x.split("=")[0] not in RESERVED))
+    return "\t".join(c)
 
 
 def canon_text(text, mask):
@@ -538,8 +550,8 @@ def canon_text(text, mask):
         c = l.split("\t")
         if mask:
             m = re.search(r"(?:^|;)Parent=([^;]*)", c[8])
-            par = mask_guids(by_id.get(m.group(1), "?")) if m else ""
-            l = mask_guids(l) + " <- " + par
+            par = _sorted_attrs(mask_guids(by_id.get(m.group(1), "?"))) if m else ""
+            l = _sorted_attrs(mask_guids(l)) + " <- " + par
         keyed.append((int(c[3]) if c[3].isdigit() else -1, l))
     keyed.sort()
     return lines[:lo] + [l for _, l in keyed] + lines[hi + 1:]
@@ -593,12 +605,12 @@ def run_coll(args):
         # the property is still checked in this mode.
         text = text.replace("\n>" + chunk_id + "\n", "\n>" + coll["sequence_name"] + "\n", 1)
     if profile in PARSE_PROFILES and rows is not None:
-        viol += parse_legs(text, coll, off, fasta, seq, chrom_rel)
+        viol += parse_legs(text, coll, off, fasta, seq, chrom_rel, [str(g.guid) for g in ac.genes])
     viol = sorted(set(viol))
     return "ok clean" if not viol else "ok viol " + " ".join(viol)
 
 
-def parse_legs(text, coll, off, fasta, seq, chrom_rel):
+def parse_legs(text, coll, off, fasta, seq, chrom_rel, gene_ids):
     viol = []
     try:
         recs = parse_text(text, fasta)
@@ -615,12 +627,24 @@ def parse_legs(text, coll, off, fasta, seq, chrom_rel):
     elif rec.seqrecord is not None:
         viol.append("parse.unexpected-sequence")
     viol += compare_parsed(ac2.to_dict(), normalise_source(coll, off), coll)
-    # (d) re-export: first round equal up to the GUID-derived IDs, then byte-identical
+    if viol:
+        # (d) presupposes (c): a re-export of wrongly parsed models differs as a CONSEQUENCE; it is not reported as a
+        # second violation (keeps the matchers of the known findings narrow)
+        return viol
+    # (d) re-export.  First round: equal to the export of the normalised source (= the file itself whenever every
+    # identifier is present) up to the GUID-derived IDs; from then on byte-identical (up to the order of ties).
     try:
         text2 = export([ac2], fasta, True)
     except Exception as e:  # noqa
         return viol + [clause(f"reexport.raised:{type(e).__name__}")]
-    c1, c2 = canon_text(text, True), canon_text(text2, True)
+    ref = text
+    if needs_normalisation(coll):
+        nparent = None
+        if fasta:
+            from inscripta.biocantor.io.parser import seq_to_parent
+            nparent = seq_to_parent(seq, seq_id=coll["sequence_name"])
+        ref = export([G.build(normalised_collection(coll, off, gene_ids), nparent)], fasta, True)
+    c1, c2 = canon_text(ref, True), canon_text(text2, True)
     if c1 != c2:
         viol.append(clause("reexport.round1:" + diff_texts(c1, c2)))
     try:
@@ -632,6 +656,28 @@ def parse_legs(text, coll, off, fasta, seq, chrom_rel):
     if c2 != c3:
         viol.append(clause("reexport.round2:" + diff_texts(c2, c3)))
     return viol
+
+
+def needs_normalisation(coll):
+    return any(not g["gene_id"] or any(not t["transcript_id"] or not t["transcript_symbol"] or not t["transcript_type"]
+                                       for t in g["transcripts"]) for g in coll["genes"])
+
+
+def normalised_collection(coll, off, gene_ids):
+    """the source with the parser's documented fall-backs applied, as a plain collection in the coordinates of the
+    exported file (`gene_ids`: the ID column of each gene row of the first export, by gene index)"""
+    import copy
+    c = copy.deepcopy(coll)
+    for i, g in enumerate(c["genes"]):
+        g["gene_id"] = g["gene_id"] or gene_ids[i]
+        for t in g["transcripts"]:
+            t["transcript_id"] = t["transcript_id"] or g["locus_tag"]
+            t["transcript_symbol"] = t["transcript_symbol"] or g["locus_tag"]
+            t["transcript_type"] = t["transcript_type"] or g["gene_type"]
+            for k in ("exon_starts", "exon_ends", "cds_starts", "cds_ends"):
+                if t[k]:
+                    t[k] = [x - off for x in t[k]]
+    return c
 
 
 def diff_texts(la, lb):
